@@ -319,4 +319,152 @@ def scale (x : Float32) : Gain → Float32
 /-- `.astype(np.float32)` of an int16 sample. -/
 def castF32 (x : Int) : Float32 := Float32.ofInt x
 
+/-! ### Metadata decisions behind the gain vector and the sync columns
+
+    def _get_type_from_meta(md):
+        snsApLfSy = md.get("snsApLfSy", [-1, -1, -1])
+        if snsApLfSy[0] == 0 and snsApLfSy[1] != 0:   return "lf"
+        elif snsApLfSy[0] != 0 and snsApLfSy[1] == 0: return "ap"
+        elif snsApLfSy == [-1, -1, -1] and md.get("typeThis", None) == "nidq": return "nidq"
+
+    def _get_sync_trace_indices_from_meta(md):
+        typ = _get_type_from_meta(md)
+        ntr = int(_get_nchannels_from_meta(md))                  # int(md.get("nSavedChans"))
+        if typ == "nidq":           nsync = int(md.get("snsMnMaXaDw")[-1])
+        elif typ in ["lf", "ap"]:   nsync = int(md.get("snsApLfSy")[2])
+        return list(range(ntr - nsync, ntr))
+
+    Reader.nsync = len(_get_sync_trace_indices_from_meta(self.meta))
+    Reader.read:  self.channel_conversion_sample2v[self.type][csel]        # self.type = _get_type_from_meta(self.meta)
+-/
+
+/-- The two bands of an imec stream: the key under which `Reader.read` looks up its volts-per-bit vector. -/
+inductive Band
+  | ap
+  | lf
+  deriving Repr, DecidableEq
+
+def Band.name : Band → String
+  | .ap => "ap"
+  | .lf => "lf"
+
+/-- `_get_type_from_meta` on imec metadata, `snsApLfSy = nAp,nLf,nSy`; `none`: neither test holds (the function
+returns `None`, `_get_sync_trace_indices_from_meta` then raises UnboundLocalError — not a SpikeGLX stream). -/
+def bandOf (nAp nLf : Int) : Option Band :=
+  if nAp = 0 ∧ nLf ≠ 0 then some .lf
+  else if nAp ≠ 0 ∧ nLf = 0 then some .ap
+  else none
+
+/-- `_get_sync_trace_indices_from_meta`: `list(range(ntr - nsync, ntr))`. -/
+def syncTraceIndices (ntr nsync : Int) : List Int := pyRange (ntr - nsync) ntr 1
+
+/-- `Reader.nsync`. -/
+def nsyncM (ntr nsync : Int) : Nat := (syncTraceIndices ntr nsync).length
+
+/-- Python `l[:k]` for a list (a negative `k` counts from the end). -/
+def pyPrefix {κ : Type} (l : List κ) (k : Int) : List κ :=
+  if k < 0 then l.take (l.length - k.natAbs) else l.take k.toNat
+
+/-- What the imec branch of `_conversion_sample2v_from_meta` reads besides the gains. -/
+structure ImecCounts where
+  nSaved : Int        -- nSavedChans
+  nAp : Int           -- snsApLfSy[0]
+  nLf : Int           -- snsApLfSy[1]
+  nSy : Int           -- snsApLfSy[2] (= snsApLfSy[-1])
+  deriving Repr, DecidableEq
+
+/-- `n_chn = _get_nchannels_from_meta(meta_data) - len(_get_sync_trace_indices_from_meta(meta_data))`. -/
+def ImecCounts.nChn (m : ImecCounts) : Int := m.nSaved - (nsyncM m.nSaved m.nSy : Nat)
+
+/-- NP1 / NPultra branch of `_conversion_sample2v_from_meta`, the vector of the band the reader uses:
+
+    sy_gain = np.ones(int(meta_data["snsApLfSy"][-1]), dtype=np.float32)
+    gain = re.findall(r"([0-9]* [0-9]* [0-9]* [0-9]* [0-9]*)", meta_data["imroTbl"])[:n_chn]
+    out = {"lf": np.hstack((np.array([1 / np.float32(g.split(" ")[-1]) for g in gain]) * int2volt, sy_gain)),
+           "ap": np.hstack((np.array([1 / np.float32(g.split(" ")[-2]) for g in gain]) * int2volt, sy_gain))}
+
+`tbl` = the (AP gain, LF gain) columns of ALL imro entries in table order, `factor` the per-entry conversion. -/
+def s2vNp1 {γ κ : Type} (factor : Band → κ → γ) (one : γ) (tbl : List κ) (m : ImecCounts) : Option (List γ) :=
+  match bandOf m.nAp m.nLf with
+  | none => none
+  | some b => some (s2vVec ((pyPrefix tbl m.nChn).map (factor b)) one m.nSy.toNat)
+
+/-- NP2 branch: `np.hstack((int2volt / 80 * np.ones(n_chn).astype(np.float32), sy_gain))` for both bands
+(`np.ones` of a negative count raises ValueError: `none`, like an undecidable band). -/
+def s2vNp2 {γ : Type} (f one : γ) (m : ImecCounts) : Option (List γ) :=
+  match bandOf m.nAp m.nLf with
+  | none => none
+  | some _ => if m.nChn < 0 then none else some (s2vVec (List.replicate m.nChn.toNat f) one m.nSy.toNat)
+
+/-- The float32 factor of one imro entry `(apGain, lfGain)` in band `b`. -/
+def np1BandFactor (i2v : Float) (b : Band) (e : Nat × Nat) : Float32 :=
+  np1Factor i2v (match b with | .ap => e.1 | .lf => e.2)
+
+/-! ### `read(..., sync=True)`, `read_samples` and the module-level `spikeglx.read`: calibrated data + sync bits
+
+    def read(self, nsel=slice(0, 10000), csel=slice(None), sync=True):
+        ... darray as above ...
+        if sync: return darray, self.read_sync(nsel)
+    def read_sync_digital(self, _slice):     # = read_sync on an imec stream (no analog sync channels)
+        return split_sync(self._raw[_slice, _get_sync_trace_indices_from_meta(self.meta)])
+    def read_samples(self, first_sample=0, last_sample=10000, channels=None):
+        if channels is None: channels = slice(None)
+        return self.read(slice(first_sample, last_sample), channels)
+    def read(sglx_file, first_sample=0, last_sample=10000):       # module level
+        with Reader(sglx_file) as sglxr:
+            D, sync = sglxr.read_samples(first_sample=first_sample, last_sample=last_sample)
+        return D, sync, sglxr.meta
+
+The bit layout of `split_sync` (line `k` = bit `k` of the 16-bit pattern) is C10's subject; here it is the
+specification `syncWordBits`, compared with the real code on every case.  Modelled for slice sample selectors
+(`read_samples` only builds slices); the sync part of an imec stream is purely digital. -/
+
+/-- One output row of `split_sync`: the 16 lines of a stored int16 word, line `k` = bit `k` of its uint16 pattern. -/
+def syncWordBits (x : Int) : List Nat := (List.range 16).map fun k => ((x % 65536).toNat >>> k) % 2
+
+/-- `split_sync(self._raw[slice, sidx])`: the `(n, len sidx)` block flattened in C order, one row of bits per word.
+The sample axis is the backend's own (`rowsCbin` on a `.cbin`), as for the data. -/
+def readSyncSliceM {γ : Type} (r : Rec γ) (sidx : List Nat) (s : Slice) : Except Err (List (List Nat)) :=
+  match (if r.cbin then rowsCbin (.slice s) r.ns else axisSel (.slice s) r.ns) with
+  | .error e => .error e
+  | .ok (.many ts) => .ok ((ts.flatMap fun t => sidx.map fun c => r.raw t c).map syncWordBits)
+  | .ok (.one t) => .ok ((sidx.map fun c => r.raw t c).map syncWordBits)
+
+/-- `Reader.read(slice, csel, sync=True)`: the data first (its exceptions win), then the sync bits of the SAME slice. -/
+def readPairM {α β γ : Type} (cast : Int → α) (mul : α → γ → β) (r : Rec γ) (sidx : List Nat) (s : Slice)
+    (csel : Sel) : Except Err (Out β × List (List Nat)) :=
+  match readM cast mul r (.slice s) csel with
+  | .error e => .error e
+  | .ok d =>
+    match readSyncSliceM r sidx s with
+    | .error e => .error e
+    | .ok y => .ok (d, y)
+
+/-- `Reader.read_samples(first_sample, last_sample, channels)`, both parts of what it returns. -/
+def readSamplesPairM {α β γ : Type} (cast : Int → α) (mul : α → γ → β) (r : Rec γ) (sidx : List Nat)
+    (first last : Int) (channels : Option Sel) : Except Err (Out β × List (List Nat)) :=
+  readPairM cast mul r sidx ⟨some first, some last, none⟩ (channels.getD (.slice Slice.all))
+
+/-- Module-level `spikeglx.read(file, first_sample, last_sample)` (data and sync; the reader is the default one). -/
+def moduleReadM {α β γ : Type} (cast : Int → α) (mul : α → γ → β) (r : Rec γ) (sidx : List Nat)
+    (first last : Int) : Except Err (Out β × List (List Nat)) :=
+  readSamplesPairM cast mul r sidx first last none
+
+/-- The calls the module-level `read` makes on the reader it opens, with their integer arguments. -/
+def moduleReadCalls (first last : Int) : List (String × List Int) := [("read_samples", [first, last])]
+
+/-! ### All int16 contents at once (driver only): a checksum of `float32(x) ⊗ g` over the 65 536 sample values -/
+
+/-- `Σ (k+1)·bits(scale(castF32 x_k) g)  mod 2^64`, `x_k = k - 32768`, `k = 0 … 65535`. -/
+def calibrateAllSum (g : Gain) : UInt64 :=
+  (List.range 65536).foldl (fun (acc : UInt64) (k : Nat) =>
+    acc + (UInt64.ofNat (k + 1)) * (scale (castF32 ((k : Int) - 32768)) g).toBits.toUInt64) 0
+
+/-- How many of the 65 536 products are exact (the float64 product of two float32 numbers is exact, so this is a
+faithful test): used to report the exact cases (gain 1, powers of two). -/
+def calibrateExactCount (g : Float32) : Nat :=
+  (List.range 65536).foldl (fun (acc : Nat) (k : Nat) =>
+    let x := castF32 ((k : Int) - 32768)
+    if (x * g).toFloat == x.toFloat * g.toFloat then acc + 1 else acc) 0
+
 end IblVerif.Reader
